@@ -81,6 +81,11 @@ def expected(cmd, a, cdb):
     if name in READS:
         return ("eq", f["TRANSFER LENGTH"] * a["blocksize"]), ("eq", 0)
     if name in WRITES:
+        d = a.get("data")
+        n = d["n"] if isinstance(d, dict) else (len(d) if d is not None else 0)
+        if a.get("wrprotect") and n == f["TRANSFER LENGTH"] * (a["blocksize"] + 8):
+            # protection information is transferred with the data (SBC-3 4.22): blocks of blocksize + 8 bytes
+            return ("eq", 0), ("eq", n)
         return ("eq", 0), ("eq", f["TRANSFER LENGTH"] * a["blocksize"])
     if name.startswith("writesame"):
         if f.get("NDOB"):
